@@ -222,6 +222,12 @@ theorem decodeObject_undeclared_dropped (s : Sch) (ex : Bool) (raw : String) (c 
     subst h
     exact buildDeclared_keys pairs s.props [] d hb k hk
 
+/-- An object-valued header always decodes to an object or to an error, never to "no value": finding F-C08-1
+(a present header validated as `null`) does not concern object headers. -/
+theorem decodeHeader_object_ne_nil (s : Sch) (ex : Bool) (raw : String) (c : Dec) (h : s.core.ty = .object)
+    (hc : c ≠ .nil) : decodeHeader s ex raw c ≠ .nil := by
+  simpa [decodeHeader, h] using decodeObject_ne_nil s ex raw c hc
+
 def intHdrSchema : Sch := .mk { ty := .integer } .nil .none .none
 def arrHdrSchema (it : OSch) : Sch := .mk { ty := .array } .nil .none it
 
